@@ -71,9 +71,9 @@ def r1(ctx):
         via = set(reset_ids)
         if is_incomplete:
             # allowed to skip the reset only when we closed locally: `self._writer and not self._writer.is_closing()`
-            for t in rd.tests(lambda e: dotted(e) == "self._writer"):
+            for t, present in rd.presence("self._writer"):
                 if g.dominates(h.id, t.id):
-                    via.add(rd.branch(t, "false").id)
+                    via.add(rd.branch(t, "false" if present == "true" else "true").id)
             for t in rd.tests(lambda e: isinstance(e, ast.Call) and dotted(e.func) == "self._writer.is_closing"):
                 if g.dominates(h.id, t.id):
                     via.add(rd.branch(t, "true").id)
@@ -116,12 +116,13 @@ def r2(ctx):
     g = ds.cfg
     closes = [n for n, c in ds.calls("self._writer.close")]
     waits = [n for n, c in ds.calls("self._writer.wait_closed")]
-    wt = ds.tests(lambda e: dotted(e) == "self._writer")
-    ok = bool(closes) and all(any(g.dominates(ds.branch(t, "true").id, n.id) for t in wt) for n in closes)
+    wtp = ds.presence("self._writer")
+    wt = [t for t, _ in wtp]
+    ok = bool(closes) and all(any(g.dominates(ds.branch(t, lab).id, n.id) for t, lab in wtp) for n in closes)
     ctx.check(ok, R, "_disconnect:close-writer", m, ds.node, "the current writer is closed when one exists", "no guarded self._writer.close()")
     # every path on which a writer exists closes it
     if wt and closes:
-        tb = ds.branch(wt[0], "true")
+        tb = ds.branch(wtp[0][0], wtp[0][1])
         ctx.check(g.all_paths_pass(tb.id, [g.exit.id], [n.id for n in closes], NONEXC), R, "_disconnect:close-on-all-paths", m, wt[0].ast, "with a writer present every path closes it", "a path skips close()")
     else:
         ctx.violation(R, "_disconnect:close-on-all-paths", m, ds.node, "with a writer present every path closes it", "no writer test / close")
